@@ -36,9 +36,10 @@ example : readRange [⟨1, .wr, 0x10, 3, [0xaa, 0xbb, 0xcc], some [true, false, 
 
 /-- **Every byte of a request is served by the bank chosen from its start address** when the request lies
 inside one interleave block (true for cache-line requests, interleave ≥ 64 B), for every bank count and
-interleave: all requests touching a byte meet in one bank. -/
-theorem footprint_one_bank (c : Cfg) (r : Req) (x : Nat) (hf : fits c r) (ht : touches x r = true) :
-    bankOf c r.addr = bankOf c x := bank_of_touch c r x hf ht
+interleave: all requests touching a byte meet in one bank. With a `BankAddressConverter` installed (MI300A) this needs
+`ConvOk`: its interleaving size and offset are multiples of the interleave block (`True` when none is installed). -/
+theorem footprint_one_bank (c : Cfg) (hc : ConvOk c) (r : Req) (x : Nat) (hf : fits c r) (ht : touches x r = true) :
+    bankOf c r.addr = bankOf c x := bank_of_touch c hc r x hf ht
 
 /-- **Same bank ⇒ arrival order** (hence same address ⇒ arrival order): with pipeline width 1, for every
 configuration of banks, interleave, depth, stage latency, row size, row-miss delay and buffer sizes and every
@@ -70,8 +71,7 @@ theorem nodup_of_filters {f : Req → Nat} : ∀ (l : List Req), (∀ k, (l.filt
 
 /-- **One response each** (width 1, all other parameters and all op sequences): no request is answered
 twice, only delivered requests are answered, and once nothing is in flight every delivered request has been
-answered. (That in-flight work drains when the environment keeps ticking and draining is exercised by the
-harness oracle `C17.response.missing`, not proved.) -/
+answered. (That in-flight work does drain is `liveness_bounded` in `Props/C17Live.lean`.) -/
 theorem one_response_each (c : Cfg) (hw : c.width = 1) (ops : List Op) :
     ((run c ops).resp.map (·.req)).Nodup ∧
     (∀ rsp ∈ (run c ops).resp, rsp.req ∈ (run c ops).arrived) ∧
@@ -119,16 +119,18 @@ def MemSemantics (c : Cfg) : Prop :=
         readByte (run c ops).log x = readByte ((run c ops).arrived.take r.id).reverse x
 
 /-- the full statement: memory semantics regardless of every parameter, including the pipeline width -/
-def mem_semantics_full : Prop := ∀ c : Cfg, 0 < c.banks → 0 < c.width → 0 < c.depth → MemSemantics c
+def mem_semantics_full : Prop := ∀ c : Cfg, 0 < c.banks → 0 < c.width → 0 < c.depth → ConvOk c → MemSemantics c
 
 /-- **Partial (all that holds of the code):** pipeline width 1 — every other parameter free (banks, interleave,
 depth, stage latency, row size and row-miss delay on or off, buffer sizes), every op sequence whose requests
-lie inside one interleave block. With the row-buffer repair this includes the shipped MI300A setting. -/
-theorem mem_semantics_partial (c : Cfg) (hw : c.width = 1) : MemSemantics c := by
+lie inside one interleave block; a bank address converter, if installed, must keep interleave blocks together
+(`ConvOk`, `True` without converter). With the row-buffer repair this includes the shipped MI300A setting
+(`mi300aConv` below: 16 banks, 64-byte blocks, row 2 KiB, miss delay 52, converter 128 B × 16 elements). -/
+theorem mem_semantics_partial (c : Cfg) (hw : c.width = 1) (hc : ConvOk c) : MemSemantics c := by
   intro ops hops k r rest hh x ht
-  exact head_sees_flat c (run c ops) (run_inv c hw ops) (run_fits c ops hops) k r rest hh x ht
+  exact head_sees_flat c hc (run c ops) (run_inv c hw ops) (run_fits c ops hops) k r rest hh x ht
 
-def w2 : Cfg := ⟨1, 6, 2, 1, 1, 0, 0, 1, 1⟩
+def w2 : Cfg := ⟨1, 6, 2, 1, 1, 0, 0, 1, 1, none, none⟩
 /-- two writes `aa`, `bb` to 0x80 then a read of 0x80, behind two other writes, responses not drained for a while -/
 def w2ops : List Op := [.deliver .wr 0 1 [0x11] none, .tick, .tick, .deliver .wr 0x40 1 [0x22] none, .tick,
   .deliver .wr 0x80 1 [0xaa] none, .tick, .deliver .wr 0x80 1 [0xbb] none, .tick, .tick, .tick, .tick,
@@ -140,12 +142,12 @@ earlier write `bb` (request 3) waits in lane 1; the storage holds `aa`, flat mem
 The same scenario runs on the real component in every check (`C17.order.width>1`). -/
 theorem mem_semantics_full_refuted : ¬ mem_semantics_full := by
   intro h
-  have h1 := h w2 (by decide) (by decide) (by decide) w2ops (by decide) 0
+  have h1 := h w2 (by decide) (by decide) (by decide) (by decide) w2ops (by decide) 0
     ⟨4, .rd, 0x80, 1, [], none⟩ [⟨3, .wr, 0x80, 1, [0xbb], none⟩] (by decide +kernel) 0x80 (by decide)
   revert h1
   decide +kernel
 
-def mi300a : Cfg := ⟨16, 6, 1, 5, 1, 11, 52, 128, 1024⟩
+def mi300a : Cfg := ⟨16, 6, 1, 5, 1, 11, 52, 128, 1024, none, none⟩
 /-- **The reported MI300A witness after the repair**: write `[1,2,3,4]` to 0x40 (row miss, 52-cycle delay queue),
 two ticks later read 0x40 (row hit) — the read is now answered after the write, with the written data. -/
 theorem rowhit_no_longer_overtakes :
@@ -154,6 +156,11 @@ theorem rowhit_no_longer_overtakes :
   decide +kernel
 
 /-- non-vacuity of `mem_semantics_partial`: the MI300A configuration has width 1 and the scenario's requests fit -/
-example : MemSemantics mi300a := mem_semantics_partial mi300a rfl
+example : MemSemantics mi300a := mem_semantics_partial mi300a rfl trivial
+
+/-- the shipped MI300A `DRAM[3]`: as `mi300a`, with the `BankAddressConverter` the platform installs
+(`InterleavingConverter{128, 16, 3}`) -/
+def mi300aConv : Cfg := ⟨16, 6, 1, 5, 1, 11, 52, 128, 1024, some ⟨128, 16, 3, 0⟩, none⟩
+example : MemSemantics mi300aConv := mem_semantics_partial mi300aConv rfl (by decide)
 
 end C17
